@@ -58,6 +58,12 @@ def cases(shard, nshards, seed, tier):
     for i in range(n):
         if mine():
             yield {"family": "generated", "i": i}
+    # deposited mmCIF files as they are, and without the canonical one-letter sequence item (refinement programs write
+    # only the plain code, in which modified residues are spelled (PSU)): the two readers on the same text
+    for fn in ("tests/1ehz-assembly-1.cif", "tests/1a9n.cif"):  # (files without alternate locations)
+        for variant in ("as-deposited", "without-canonical-sequence"):
+            if mine():
+                yield {"family": "deposited-file", "file": fn, "variant": variant}
     # more than ten thousand residue numbers in one table (solvent of a large entry) next to two short RNA chains
     if mine():
         yield {"family": "ten-thousand-residues"}
@@ -280,6 +286,48 @@ def diff_maps(a, b):
     return None
 
 
+def _deposited(case, rec):
+    from rnapolis import parser_v2, tertiary_v2
+    from vmon.props import c18
+
+    path = os.path.join(core.REPO, case["file"])
+    text = open(path).read()
+    if case["variant"] == "without-canonical-sequence":
+        text = c18._without_canonical_sequence(path)
+        if text is None:
+            rec.skip("chi.magnitudes-agree", "no one-line canonical sequence item in this file")
+            return
+    det = lambda extra=None: {"case": {"file": case["file"], "variant": case["variant"]}, "info": extra}
+    try:
+        s1 = emit.read_text(text, ".cif", 1)
+        m1, o1 = v1_map(s1)
+        st2 = tertiary_v2.Structure(parser_v2.parse_cif_atoms(text))
+        tab = st2.torsion_angles
+    except Exception as e:
+        rec.violation("readers.no-crash", det(repr(e)[:300]), mechanism=f"crash:{type(e).__name__}")
+        return
+    rec.mark_nontrivial(True)
+    bad = None
+    n = 0
+    for _, row in tab.iterrows():
+        c = row.get("chi")
+        if c is None or (isinstance(c, float) and math.isnan(c)):
+            continue
+        k = (str(row["chain_id"]), int(row["residue_number"]), row["insertion_code"] if isinstance(row["insertion_code"], str) else None)
+        r = o1.get(k)
+        if r is None or str(row["residue_name"]) not in STANDARD:
+            continue
+        try:
+            c1 = r.chi
+        except Exception:
+            c1 = None
+        n += 1
+        if c1 is None or math.isnan(c1) or abs(abs(c1) - abs(float(c))) > 1e-6:
+            bad = {"residue": k, "name": str(row["residue_name"]), "residue-level chi": c1, "table-level chi": float(c), "one-letter": r.one_letter_name}
+    rec.check("chi.magnitudes-agree", bad is None, lambda: det(bad))
+    rec.count("note:deposited-chi-compared", n)
+
+
 def _ten_thousand(case, rec):
     from rnapolis import parser_v2, tertiary_v2
 
@@ -321,6 +369,8 @@ def run_case(case, rec):
 
     if case["family"] == "ten-thousand-residues":
         return _ten_thousand(case, rec)
+    if case["family"] == "deposited-file":
+        return _deposited(case, rec)
 
     seed = os.environ.get("VERIF_SEED", "0")
     if case["family"] == "generated":
